@@ -348,9 +348,25 @@ func (cp *chargePoint) SendRequestAsync(request ocpp.Request, callback func(conf
 
 // stopC is the stop signal of this session: Start replaces the field for the next one
 func (cp *chargePoint) asyncCallbackHandler(stopC chan struct{}) {
+	stopped := func() bool {
+		select {
+		case <-stopC:
+			return true
+		default:
+			return false
+		}
+	}
 	for {
+		// The stop signal comes first: a select with a conclusion and the stop signal both ready picks either.
+		// Once stopped, nothing is delivered any more and whatever waits belongs to this session or a later one.
+		if stopped() {
+			return
+		}
 		select {
 		case c := <-cp.conclusions:
+			if stopped() {
+				return
+			}
 			// Get and invoke callback
 			if callback, ok := cp.callbacks.Dequeue("main"); ok {
 				callback(c.response, c.err)
@@ -362,9 +378,8 @@ func (cp *chargePoint) asyncCallbackHandler(stopC chan struct{}) {
 				cp.error(err)
 			}
 		case <-stopC:
-			// Handler stopped, cleanup callbacks.
-			// No callback invocation, since the user manually stopped the client.
-			cp.clearCallbacks(false)
+			// Handler stopped. The callbacks were cleaned up by Stop: when this routine gets here
+			// (it may have been busy in a callback) the endpoint may be running its next session.
 			return
 		}
 	}
@@ -443,6 +458,8 @@ func (cp *chargePoint) Start(centralSystemUrl string) error {
 func (cp *chargePoint) Stop() {
 	cp.client.Stop()
 	close(cp.stopC)
+	// Cleanup callbacks. No callback invocation, since the user manually stopped the client.
+	cp.clearCallbacks(false)
 
 	if cp.errC != nil {
 		close(cp.errC)
